@@ -564,6 +564,7 @@ class PolicyJsonStream(Stream):
     imports = 'From Vakt Require Import Model.Rules Model.Policy Model.Regex Harness.RunC10 Harness.RunC09.'
     case_type = 'RunC10.case'
     run_fn = 'run_pjson'
+    quota = (400, 4000)
     rule = ('policies built by the constructor (lists or tuples of str / rule / dict elements, plain values, context / '
             'legacy rules) and changed by 0-6 attribute assignments (rejected ones included), then written with '
             'to_json and read with Policy.from_json: vars(policy) after writing (tuples became lists, in place) and '
@@ -572,8 +573,9 @@ class PolicyJsonStream(Stream):
 
     def generate(self, rng, tier):
         from .c10 import C10Stream, gen_op
-        n = 400 if tier == 'quick' else 4000
-        src = C10Stream().generate(rng, tier)
+        n = self.quota[0] if tier == 'quick' else self.quota[1]
+        src = C10Stream().generate(rng, 'thorough')      # a lazy source: as many cases as the quota asks for
+        keep = getattr(self, 'keep', lambda c: True)
         made = 0
         for case in src:
             if made >= n:
@@ -582,6 +584,8 @@ class PolicyJsonStream(Stream):
             if rng.random() < 0.5:
                 ops = []
             c = {'ctor': case['ctor'], 'ops': ops}
+            if not keep(c):
+                continue
             if self.impl(c).startswith(('E:', 'B:')) and rng.random() < 0.9:
                 continue                      # the constructor refused: that is C10's subject, keep a few
             made += 1
@@ -640,6 +644,77 @@ class PolicyJsonStream(Stream):
                 'print(PolicyJsonStream().impl(json.loads(%r)))' % json.dumps(c))
 
 
+class PolicyDocStream(PolicyJsonStream):
+    """the JSON document itself: json.loads(policy.to_json()) against Model.PolicyDoc.policy_doc of the written state, and
+    the policy rebuilt from it against read_doc (props_of_doc, then from_props)"""
+    name = 'policy_document'
+    imports = ('From Vakt Require Import Model.Rules Model.Policy Model.Regex Model.RuleJson Model.PolicyDoc '
+               'Harness.RunC10 Harness.RunC09.')
+    run_fn = 'run_pdoc'
+    rule = ('the cases of policy_written_then_read whose rules are within the rule codec (no RegexMatch, no user-defined '
+            'rule, list rules with at most one argument - a set of two has no order to compare) and whose values have one '
+            'representation in the model: the parsed JSON text of to_json is compared with policy_doc (data_of s), and '
+            'vars() of the policy rebuilt by Policy.from_json (or the exception) with read_doc of that document. '
+            'non-trivial = the document holds a rule object inside a list or dictionary')
+
+    @staticmethod
+    def _multi_set(x):
+        if isinstance(x, list):
+            if len(x) == 2 and x[0] in specs.LISTR and isinstance(x[1], list) and len(x[1]) >= 2:
+                return True
+            return any(PolicyDocStream._multi_set(y) for y in x)
+        if isinstance(x, dict):
+            return any(PolicyDocStream._multi_set(y) for y in x.values())
+        return False
+
+    quota = (350, 3500)
+
+    def keep(self, c):
+        t = json.dumps([c['ctor'], c['ops']])
+        return not self._multi_set([c['ctor'], c['ops']]) and not any(
+            k in t for k in ('"Junk"', '"Const"', '"Broken"', '"RegexMatch', '"k"'))
+
+    def impl(self, c):
+        import warnings
+        from vakt.policy import Policy
+        from .c10 import s_state
+        a = c['ctor']
+        with warnings.catch_warnings():
+            warnings.simplefilter('ignore')
+            try:
+                p = Policy(mk_aval(a['uid']), subjects=mk_aval(a['subjects']), effect=mk_aval(a['effect']),
+                           resources=mk_aval(a['resources']), actions=mk_aval(a['actions']),
+                           context=mk_aval(a['context']), rules=mk_aval(a['rules']),
+                           description=mk_aval(a['description']))
+            except Exception as e:  # noqa
+                return s_exc(e)
+            for n, v in c['ops']:
+                try:
+                    setattr(p, n, mk_aval(v))
+                except Exception:  # noqa
+                    pass
+            text = p.to_json()
+            try:
+                doc = s_val(json.loads(text))
+            except TypeError:
+                return 'SKIP value outside the universe'
+            try:
+                back = s_state(Policy.from_json(text))
+            except Exception as e:  # noqa
+                back = s_exc(e)
+        return doc + ' => ' + back
+
+    def oracle(self, c, obs):
+        return None
+
+    def nontrivial(self, c, obs):
+        return 'py/object' in obs.replace('112.121.47.111.98.106.101.99.116', 'py/object')
+
+    def describe(self, c):
+        return ('import json; from harness.checks.c09 import PolicyDocStream; '
+                'print(PolicyDocStream().impl(json.loads(%r)))' % json.dumps(c))
+
+
 TRUSTED = [
     'Coq 8.16.1 kernel + vm_compute (no native_compute)',
     'Model/Policy.v from_props + ctor + data_of (Policy.from_json / __init__ / _data), tied by the from_json_documents '
@@ -647,6 +722,8 @@ TRUSTED = [
     'checkers / rules models give the verdicts the reloaded policy must reproduce (persistence_round_trip stream)',
     'Model/RuleJson.v rule_val / rule_of_val (the JSON object jsonpickle writes for a rule and the object it rebuilds), '
     'tied to Rule.to_json / Rule.from_json by the rule_codec stream; the members of a py/set are compared as a set',
+    'Model/PolicyDoc.v policy_doc / props_of_doc (the JSON document of a policy and what jsonpickle.decode rebuilds), tied '
+    'to Policy.to_json / Policy.from_json by the policy_document stream',
     'jsonpickle, pickle, SQLAlchemy JSON columns and bson are exercised, not modelled; SQLite is real, Mongo and '
     'Redis are client doubles',
 ]
@@ -656,7 +733,7 @@ ASSUME = ['rule arguments are JSON-representable values of the modelled universe
 
 
 def main(argv):
-    return run_check('C09', [RoundTripStream(), DocStream(), RuleCodecStream(), PolicyJsonStream()], argv, trusted_base=TRUSTED, assumptions=ASSUME,
+    return run_check('C09', [RoundTripStream(), DocStream(), RuleCodecStream(), PolicyJsonStream(), PolicyDocStream()], argv, trusted_base=TRUSTED, assumptions=ASSUME,
                      translated=('policy', 'sqlmodel', 'pin_inquiry', 'pin_sql', 'pin_mongo', 'pin_redis', 'pin_rules', 'pin_util'))
 
 
